@@ -116,8 +116,21 @@ def _init_worker(active):
     sys.setrecursionlimit(5000)
 
 
+def safe_check(prop, case):
+    """check_case with one library-caused failure mode mapped to a discrepancy: serialized state text
+    that the independent reader cannot make sense of (BadState) is the library's output being wrong,
+    not a harness problem."""
+    from pv.harness import BadState
+    try:
+        return prop.check_case(case)
+    except BadState as e:
+        res = Res()
+        res.bad(f"{prop.ID}/state-text-unreadable", {"error": str(e)[:500]})
+        return res
+
+
 def _check(prop, case, stats):
-    res = prop.check_case(case)
+    res = safe_check(prop, case)
     stats.add(case, res)
     return res
 
@@ -233,7 +246,7 @@ def reduce_worker(args):
 
     def fails(c):
         try:
-            r = prop.check_case(c)
+            r = safe_check(prop, c)
         except Exception:
             return None
         for b, d in r.disc:
@@ -279,7 +292,7 @@ def run_replay(pid, path):
         doc = json.load(fh)
     case = doc["case"] if isinstance(doc, dict) and "case" in doc else doc
     ctx.ACTIVE = frozenset(findings.determine_active(pid, prop, quiet=True))
-    res = prop.check_case(case)
+    res = safe_check(prop, case)
     if res.disc:
         for bucket, detail in res.disc:
             print(f"  bucket={bucket} detail={json.dumps(detail, default=str)[:2000]}")
@@ -339,6 +352,7 @@ def main(argv):
         for sh in range(shards):
             jobs_h.append((pid, tier, seed, sh, per, deadline_ts, stream if stream != "main" else None))
     exhaustive_complete = True
+    fuzz_procs = start_fuzz(pid, plan, seed)
     with mp.get_context("fork").Pool(nproc, initializer=_init_worker, initargs=(sorted(active),)) as pool:
         r_e = pool.map_async(exhaustive_worker, jobs_e, chunksize=1) if jobs_e else None
         r_h = pool.map_async(hypothesis_worker, jobs_h, chunksize=1) if jobs_h else None
@@ -357,6 +371,7 @@ def main(argv):
                 else:
                     total.found[bucket]["detail"] = {"note": "not reproducible in a second run of the same case "
                                                      "(result depends on hash/address order)", "first": total.found[bucket]["detail"]}
+    collect_fuzz(fuzz_procs, total)
     if total.harness_error:
         print("HARNESS ERROR:\n" + total.harness_error)
         return 2
@@ -366,6 +381,50 @@ def main(argv):
             pickle.dump({"stats": total, "active": sorted(active), "plan": plan, "ncorpus": len(corpus)}, fh)
         return 0
     return report(pid, tier, seed, prop, total, active, plan, bool(jobs_e), corpus, t0)
+
+
+def start_fuzz(pid, plan, seed):
+    """Coverage-guided campaigns (atheris) declared by the property's plan; thorough tier only."""
+    import subprocess
+    import tempfile
+    procs = []
+    for spec in plan.get("fuzz", []):
+        for sh in range(spec.get("shards", 1)):
+            out = tempfile.mkdtemp(prefix="pv_fuzz_")
+            args = [sys.executable, os.path.join(ROOT, spec["script"]), out, str(spec["runs"]), str(shard_seed(seed, pid + "fuzz", sh) % 2 ** 31)]
+            if spec.get("corpus"):
+                args.append(os.path.join(ROOT, spec["corpus"]))
+            procs.append((out, subprocess.Popen(args, stdout=subprocess.DEVNULL, stderr=subprocess.DEVNULL, cwd=ROOT)))
+    return procs
+
+
+def collect_fuzz(procs, total):
+    import shutil
+    for out, p in procs:
+        try:
+            p.wait(timeout=3600)
+        except Exception:
+            p.kill()
+        try:
+            with open(os.path.join(out, "stats.json")) as fh:
+                st = json.load(fh)
+        except Exception:
+            st = None
+        if not st or not st.get("executions"):
+            total.extra["fuzz_campaigns_without_result"] += 1
+        else:
+            total.evaluations += st["executions"]
+            total.extra["fuzz_executions"] += st["executions"]
+            total.extra["fuzz_nontrivial_inputs"] += st.get("nontrivial", 0)
+            total.extra["fuzz_campaigns"] += 1
+            for b, v in st.get("found", {}).items():
+                key = "fuzz:" + b
+                cur = total.found.get(key)
+                if cur is None or _size(v["case"]) < _size(cur["case"]):
+                    total.found[key] = v
+            for smp in st.get("samples", [])[:2]:
+                total.samples.setdefault("fuzz", []).append({"text": smp}) if len(total.samples.get("fuzz", [])) < 2 else None
+        shutil.rmtree(out, ignore_errors=True)
 
 
 def run_configs(pid, tier, seed, prop, configs, t0):
